@@ -81,18 +81,22 @@ def make_send_message(kind):
     return m
 
 
-def fault_session(kind, fault, step, settle=40.0, scb="ok"):
-    info = {"injected": False, "inject_step": None, "inject_time": None, "conn_at_fault": None}
+def fault_session(kind, fault, step, settle=40.0, scb="ok", second=None):
+    """second = (fault kind, virtual seconds after the start) injects another fault after the first recovery."""
+    info = {"injected": False, "inject_step": None, "inject_time": None, "conn_at_fault": None, "second_injected": False}
 
     async def scenario(sim):
         loop = sim.loop
 
-        def inject():
+        def inject(fault=fault, first=True):
             live = [c for c in sim.conns if not c.lost and not c.closing and not c.eof_sent]
             if not live:
                 return
             c = live[-1]
-            info.update(injected=True, inject_step=loop.steps, inject_time=loop.time() - 1000.0, conn_at_fault=c.id)
+            if first:
+                info.update(injected=True, inject_step=loop.steps, inject_time=loop.time() - 1000.0, conn_at_fault=c.id)
+            else:
+                info.update(second_injected=True, second_time=loop.time() - 1000.0, second_step=loop.steps, second_conn=c.id)
             sim.ev("fault", fault=fault, conn=c.id)
             if fault == "eof":
                 c.feed_eof()
@@ -117,6 +121,8 @@ def fault_session(kind, fault, step, settle=40.0, scb="ok"):
             loop.call_later(0.2, later)
         sim.on_accept.append(on_accept)
         loop.at_step(step, inject)
+        if second is not None:
+            loop.call_later(second[1], lambda: inject(second[0], False))
         sim.spawn("connect")
         await asyncio.sleep(0.05)
         if sim.conns:
@@ -181,6 +187,16 @@ def check_recovery(sim, stats, info, acc, kind, fault, step, scb="ok"):
     dup = [e for e in sim.trace if e["k"] == "recv" and e["src"] == 100 + newest]
     if len(dup) > 1:
         acc.violation("frame-delivered-twice", f"{kind}: frame on the new connection delivered {len(dup)} times", w)
+    if info.get("second_injected"):
+        acc.count("second_faults_injected")
+        t2 = info["second_time"]
+        st2 = [(e["t"], e["state"]) for e in sim.trace if e["k"] == "status" and e["s"] >= info["second_step"]]
+        d2 = next((t for t, s_ in st2 if s_ == "DISCONNECTED"), None)
+        c2 = next((t for t, s_ in st2 if s_ == "CONNECTED" and d2 is not None and t >= d2), None)
+        if d2 is None or d2 - t2 > 5.0 + 1e-6 or c2 is None or newest <= info["second_conn"]:
+            acc.violation("no-recovery-from-second-fault", f"{kind}: a second fault ({fault} then another) after the first recovery was not recovered from (statuses {st2})", w)
+        else:
+            acc.count("second_recoveries_checked")
     exp_ticks = int(info["elapsed"] / 0.1)
     if abs(sim.heartbeat_ticks - exp_ticks) > 3:
         acc.violation("heartbeat-starved", f"{kind}: heartbeat ticked {sim.heartbeat_ticks} times in {info['elapsed']:.1f} virtual s", w)
@@ -341,9 +357,17 @@ def run_shard(spec, acc):
     steps = list(range(0, steady + 1))
     if quick and len(steps) > 40:
         steps = steps[:30] + steps[30::3]
-    for step in steps:
+    seconds = ["reset", "eof", "write_error"] if kind != "waveshare" else ["reset", "write_error"]
+    if kind == "actisense":
+        seconds = ["reset", "eof"]
+    for k_, step in enumerate(steps):
         sim, stats, info = fault_session(kind, fault, step, scb=scb)
         check_recovery(sim, stats, info, acc, kind, fault, step, scb)
+        if not quick or k_ % 4 == 0:
+            # the same session with another fault a few seconds after the first recovery
+            sec = (seconds[k_ % len(seconds)], 8.0 + (k_ % 5) * 0.37)
+            sim, stats, info = fault_session(kind, fault, step, scb=scb, second=sec)
+            check_recovery(sim, stats, info, acc, kind, fault, step, scb)
     acc.set_exhaustive(f"{kind}/{fault}/status-callback-{scb}: every loop step 0..{steady}", not quick or len(steps) == steady + 1)
     acc.sample({"client": kind, "fault": fault, "status_cb": scb, "injection_steps": [steps[0], steps[-1]], "sessions": len(steps)})
 
